@@ -753,3 +753,16 @@ Definition rdm_utc (st : rdm_st) (id : N) (sample_id : Z) (stopf : N -> bool) : 
     else
       let '(st2, rc2, items) := rdm_utc_loop (rdm_chain_fuel st1) st1 sid0 t stopf (rp_offset (rp_r (rdm_io st1))) [] 0 in
       (st2, rc2, wm_rev items).
+
+(* ================= what a payload decodes to (used to state where delivered items come from) ================= *)
+(* the annotation a DATA payload p decodes to, for a signal whose first sample id is sid0 *)
+Definition rdm_anno_of_payload (sid0 : Z) (p : list N) : rdm_anno :=
+  let fx := fm_sub OFFSETOF_annotation_type (rdm_anno_data_off - OFFSETOF_annotation_type) p in
+  rdm_anno_of (rdm_wrap (fm_i64_of_u64 (fm_dec (fm_sub 0 8 p)) - sid0)) fx (fm_sub rdm_anno_data_off (rdm_anno_size fx) p).
+(* what one chunk contributes: a UTC DATA chunk gives one entry, a UTC SUMMARY chunk gives its entries from the first
+   one whose sample id is not below t on *)
+Definition rdm_utc_data_of (sid0 : Z) (p : list N) : Z * Z :=
+  (rdm_wrap (fm_i64_of_u64 (fm_dec (fm_sub 0 8 p)) - sid0), fm_i64_of_u64 (fm_dec (fm_sub SIZEOF_payload_header 8 p))).
+Definition rdm_utc_summary_of (sid0 t : Z) (p : list N) : list (Z * Z) :=
+  let ec := fm_dec (fm_sub OFFSETOF_payload_entry_count 4 p) in
+  fst (rdm_utc_shift sid0 (rdm_utc_skip t (rdm_dec_utc (N.to_nat ec) (fm_sub SIZEOF_payload_header (SIZEOF_utc_summary_entry * ec) p)))).
